@@ -55,6 +55,8 @@ def run_history(cell):
             return qc.Outcome.PERMANENT, '5.0.0 whole message rejected'
         if k == 'other':
             return qc.Outcome.OTHER, None
+        if k == 'oserror':
+            return qc.Outcome.OTHER, 'oserror'
         detail = []
         for i, r in enumerate(rec['rcpts']):
             o = opts[api.choice('o%d_%d' % (rec['n'], i), len(opts))]
@@ -157,8 +159,10 @@ def reference(h, rcpts):
             continue
         if kind in (qc.Outcome.TRANSIENT, qc.Outcome.OTHER):
             n_fail += 1
-            msg = detail if kind == qc.Outcome.TRANSIENT else \
-                '4.0.0 Unhandled delivery error: unexpected relay failure'
+            msg = detail if kind == qc.Outcome.TRANSIENT else (
+                '4.0.0 Unhandled delivery error: ' +
+                ('[Errno 111] Connection refused' if detail == 'oserror'
+                 else 'unexpected relay failure'))
             if not granted.get(n_fail, False):
                 for r in cur:
                     disp[r] = 'failed'
